@@ -1211,6 +1211,7 @@ func mRun3(rc *RC, filter func(m *MMethod) bool, floorMethods, floorCases int, d
 			rc.S.Count("M2.cases", 1)
 			if len(st.undec) > 0 {
 				rc.S.Undec("M2", key, pos, "interpreter met a construct outside the generated template: "+strings.Join(st.undec, "; "))
+				rc.S.Undec("M3", key, pos, "not interpreted (see M2): "+strings.Join(st.undec, "; "))
 				continue
 			}
 			bad := mContract(m, sc, st)
